@@ -102,6 +102,16 @@ def run(f, fixture, rep, cfg, tier):
             allowed = {("trim_start_matches", '"./"'), ("trim_start_matches", "'/'"), ("strip_prefix", '"./"'), ("strip_prefix", "'/'"), ("strip_prefix", '"/"'), ("trim_start_matches", '"/"')}
             rep.check(bool(pats) and set(pats) <= allowed, "R1", "normaliser|patterns", "names are normalised by removing only the './' and '/' prefixes",
                       "archive_name normalises with %s: more than the './' / '/' prefixes is removed, so distinct header paths (e.g. /.profile and /profile) compare equal" % pats, an[0].span)
+        # the position counter moves by exactly one per yielded entry: it pairs positional entries with header rows and ends the
+        # iteration, so skipping rows (or moving it inside a loop) drops or mis-pairs files
+        cw = []
+        for bb in it.reachable():
+            for st in it.stmts(bb):
+                if st["k"] == "assign" and st["lhs"]["l"] == 1 and [p.get("n") for p in st["lhs"]["p"] if isinstance(p, dict) and "n" in p] == ["count"]:
+                    cw.append(bb)
+        in_loop = [bb for bb in cw if any(bb in blks for (_h, blks) in it.loops())]
+        rep.check(len(cw) == 1 and not in_loop, "R1", "count|single-step", "FileIterator advances its position once per entry",
+                  "FileIterator::next writes self.count at %d places (%d inside a loop): positions are skipped or repeated" % (len(cw), len(in_loop)), it.span)
         fin = [c for c in it.calls() if c.decl.endswith("payload::Reader::<R>::finish")]
         rep.check(len(fin) == 1, "R1", "finish", "the entry is finished (padding skipped) before the next one", "FileIterator::next calls finish() %d times" % len(fin), it.span)
 
@@ -397,3 +407,7 @@ def run(f, fixture, rep, cfg, tier):
     nb2 = [c for c in pd.calls() if c.decl.endswith("payload::Builder::new")]
     rep.check(len(nb2) == 1 and render(tp.term(nb2[0].args[0])).endswith("<Some>.0.1.0"), "R7", "cpio-name", "the cpio name is the map key of the same iteration",
               "payload::Builder::new is given %s" % [render(tp.term(c.args[0]))[-60:] for c in nb2], pd.span)
+
+    # ---- R8 what is archived is what the builder was given and digested (C08.R2: content, size and digest are set together) ----
+    rep.rule("R8", "the archived bytes of a file are the bytes recorded for it (C08.R2)")
+    rep.include("c08", f, fixture, cfg, tier, "R8", "file content / digest pairing in the builder", only_rules={"R2"}, floor=5)
